@@ -183,6 +183,34 @@ def run_config(cfg, outdir):
                     _, xpo, _, _, _ = one_pass(p, cfg, cfg["outside"])
                     res["outside_prior"] = fl(prime_prior(xpo))
                     res["outside_n"] = int(len(cfg["outside"]))
+                if cfg.get("prime_probe_auto"):
+                    # a grid in PRIME space around the image of the box: prime prior vs pre-image in the prior box
+                    cols = [n for rr in offering for n in rr.prime_parameters]
+                    base = np.zeros(1, dtype=xp.dtype)
+                    rng_ = {}
+                    for n in p.prime_parameters:
+                        v = np.asarray(xp[n], dtype=float)
+                        v = v[np.isfinite(v)]
+                        base[n] = np.median(v) if v.size else 0.0
+                        rng_[n] = (float(v.min()), float(v.max())) if v.size else (0.0, 1.0)
+                    rows, which = [], []
+                    for n in cols:
+                        lo_, hi_ = rng_[n]
+                        w_ = (hi_ - lo_) or 1.0
+                        for t_ in np.linspace(lo_ - 0.75 * w_, hi_ + 0.75 * w_, 21):
+                            row = base.copy()
+                            row[n] = t_
+                            rows.append(row)
+                            which.append(n)
+                    probe = np.concatenate(rows)
+                    for f in nconfig.livepoints.non_sampling_parameters:
+                        probe[f] = 0
+                    res["probe_prior"] = fl(prime_prior(probe))
+                    pb, _ = p.inverse_rescale(probe.copy())
+                    res["probe_back"] = {n: fl(pb[n]) for n in cfg["names"]}
+                    res["probe_xp"] = {n: fl(probe[n]) for n in cols}
+                    res["probe_which"] = which
+                    res["probe_owner"] = {pp: pr for rr in offering for pr, pp in zip(rr.parameters, rr.prime_parameters)}
         # neighbours (conditioning of the reported log-Jacobian), same oracle choices
         if cfg.get("neighbours"):
             res["lj_nb"] = []
